@@ -75,7 +75,7 @@ Lemma finalize_composition (sh:Rsheet) inp e mx pk cpy csim cap f pv o : Rfinali
   o_net_sim o = o_commodity_sim o + o_capacity o + o_procurement_sim o + o_additional_sim o
                 + sumR (o_levies_sim o) + o_concession_sim o + o_etax_sim o /\
   o_net_py o = (o_net_sim o - o_capacity o) / i_fy inp + o_capacity o /\
-  o_vat_sim o = vat_percent sh / 100 * o_net_sim o /\ o_vat_py o = vat_percent sh / 100 * o_net_py o /\
+  o_vat_sim o = i_vat inp * o_net_sim o /\ o_vat_py o = i_vat inp * o_net_py o /\
   o_total_sim o = o_net_sim o + o_vat_sim o - sumR (o_feedin_sim o) /\
   o_total_py o = o_net_py o + o_vat_py o - sumR (o_feedin_py o) /\
   i_fy inp <> 0 /\
@@ -86,7 +86,7 @@ Lemma finalize_composition (sh:Rsheet) inp e mx pk cpy csim cap f pv o : Rfinali
   o_procurement_py o = o_procurement_sim o / i_fy inp /\
   (pv = None -> o_procurement_sim o = procurement sh * e / 100) /\
   o_additional_py o = (match f with RLM => additional sh | SLP => 0 end) /\
-  o_additional_sim o = o_additional_py o * i_fy inp.
+  o_additional_sim o = (match f with RLM => i_add_sim inp | SLP => 0 end).
 Proof.
   intros H. unfold finalize in H. destruct pv as [pvv|]; dres.
   all: cbn [o_net_sim o_net_py o_vat_sim o_vat_py o_total_sim o_total_py o_commodity_sim o_commodity_py o_capacity o_procurement_sim
